@@ -12,6 +12,8 @@ package db
 //@ ghost pos bv64
 //@ ghost halt bool
 //@ ghost cur_tree bv64
+// rb: remaining recursion budget (termination of the descent: every nested walk gets a smaller budget)
+//@ ghost rb bv64
 //@ ghost ixmode bool
 
 // B-tree node objects are immutable after construction (checked by the frame scan).
@@ -89,6 +91,7 @@ package db
 
 // Walk of the subtree rooted at node self: every item once, in order, unless stopped or failed.
 //@ iface db.tableBtree.Iter
+//@   requires [budget] 0 <= r && r <= rb
 //@   props C01 C12 C17
 //@   opt params=self r db cb
 //@   opt results=done err
@@ -101,6 +104,8 @@ package db
 //@   ensures [stopped] err == nil && done ==> halt
 
 //@ func (*db.tableLeaf).Iter
+//@   ghost-entry rb = r - 1
+//@   ghost-exit rb = old(rb)
 //@   implements iface db.tableBtree.Iter
 //@   uses table_tree
 //@   loop 1 invariant 0 <= $i && $i <= len(self.cells) && pos == p_lo(pg(self)) + $i && !halt
@@ -120,12 +125,14 @@ package db
 //@   loop 1 decreases len(l.cells) - $i
 
 //@ func (*db.tableInterior).Iter
+//@   ghost-entry rb = r - 1
+//@   ghost-exit rb = old(rb)
 //@   implements iface db.tableBtree.Iter
 
 // The closure handed to cellIter: open the child page and walk it.
 //@ func (*db.tableInterior).Iter$1
 //@   implements functype db.interiorIterCB
-//@   free-requires cb != nil && db != nil && !searching
+//@   free-requires cb != nil && db != nil && !searching && r > 0 && r - 1 == rb
 
 // Seam: the node object returned for page p is the faithful decode of page p (newBtree's verified
 // decode contract plus the page-cache invariant of property C08); its identity is abstracted to
@@ -162,6 +169,7 @@ package db
 //@ (assert (forall ((t (_ BitVec 64)) (k (_ BitVec 64))) (! (and (=> (bvult (tfirst t k) (p_hi t)) (bvsge (tb_rowid t (tfirst t k)) k)) (=> (bvugt (tfirst t k) (p_lo t)) (bvslt (tb_rowid t (bvsub (tfirst t k) #x0000000000000001)) k))) :pattern ((tfirst t k)))))
 
 //@ iface db.tableBtree.IterMin
+//@   requires [budget] 0 <= r && r <= rb
 //@   props C04 C12
 //@   opt params=self r db rowid cb
 //@   opt results=done err
@@ -174,6 +182,8 @@ package db
 //@   ensures [absent] err == nil && TFIRST() == p_hi(pg(self)) ==> !done && !halt && pos == old(pos)
 
 //@ func (*db.tableLeaf).IterMin
+//@   ghost-entry rb = r - 1
+//@   ghost-exit rb = old(rb)
 //@   implements iface db.tableBtree.IterMin
 //@   uses table_tree table_sorted
 
@@ -193,11 +203,13 @@ package db
 //@   loop 1 decreases len(l.cells) - n - $i
 
 //@ func (*db.tableInterior).IterMin
+//@   ghost-entry rb = r - 1
+//@   ghost-exit rb = old(rb)
 //@   implements iface db.tableBtree.IterMin
 
 //@ func (*db.tableInterior).IterMin$1
 //@   implements functype db.interiorIterCB
-//@   free-requires cb != nil && db != nil && rowid == skey && searching
+//@   free-requires cb != nil && db != nil && rowid == skey && searching && r > 0 && r - 1 == rb
 
 // ---------------------------------------------------------------------------------------
 // Payload assembly and the public low-level scans.
@@ -246,6 +258,8 @@ package db
 //@   ensures pos == old(pos) + 1 && (halt <==> done)
 
 //@ func (*db.Table).Scan
+//@   ghost-entry rb = 31
+//@   ghost-exit rb = old(rb)
 //@   props C01 C12 C17
 //@   uses table_tree
 //@   modifies * -M:S_db_KeyCol -M:S_sqlittle_columnIndex
@@ -268,6 +282,8 @@ package db
 
 // Rowid lookup. The consumer closure counts the delivery itself (it is the end of the chain).
 //@ func (*db.Table).Rowid
+//@   ghost-entry rb = 31
+//@   ghost-exit rb = old(rb)
 //@   props C04 C12
 //@   uses table_tree table_sorted
 //@   modifies * -M:S_db_KeyCol -M:S_sqlittle_columnIndex
@@ -315,6 +331,7 @@ package db
 //@   ensures err == nil && done ==> halt
 
 //@ iface db.indexBtree.Iter
+//@   requires [budget] 0 <= r && r <= rb
 //@   props C02 C12 C13 C17
 //@   opt params=self r db cb
 //@   opt results=done err
@@ -327,12 +344,16 @@ package db
 //@   ensures [stopped] err == nil && done ==> halt
 
 //@ func (*db.indexLeaf).Iter
+//@   ghost-entry rb = r - 1
+//@   ghost-exit rb = old(rb)
 //@   implements iface db.indexBtree.Iter
 //@   uses index_tree
 //@   loop 1 invariant 0 <= $i && $i <= len(self.cells) && pos == p_lo(pg(self)) + $i && !halt
 //@   loop 1 decreases len(self.cells) - $i
 
 //@ func (*db.indexInterior).Iter
+//@   ghost-entry rb = r - 1
+//@   ghost-exit rb = old(rb)
 //@   implements iface db.indexBtree.Iter
 //@   uses index_tree
 //@   loop 1 invariant 0 <= $i && $i <= len(self.cells) && pos == c_lo(self, $i) && !halt
@@ -359,6 +380,8 @@ package db
 //@   ensures [stop] done ==> halt
 
 //@ func (*db.Index).Scan
+//@   ghost-entry rb = 31
+//@   ghost-exit rb = old(rb)
 //@   props C02 C12 C17
 //@   uses index_tree
 //@   modifies * -M:S_db_KeyCol -M:S_sqlittle_columnIndex
@@ -418,6 +441,7 @@ package db
 //@   ensures [onerror] err != nil ==> r0
 
 //@ iface db.indexBtree.IterMin
+//@   requires [budget] 0 <= r && r <= rb
 //@   props C03 C13 C12 C17
 //@   opt params=self r db key cb
 //@   opt results=done err
@@ -430,6 +454,8 @@ package db
 //@   ensures [stopped] err == nil && done ==> halt
 
 //@ func (*db.indexLeaf).IterMin
+//@   ghost-entry rb = r - 1
+//@   ghost-exit rb = old(rb)
 //@   implements iface db.indexBtree.IterMin
 //@   uses index_tree index_sorted
 //@   loop 1 invariant 0 <= $i && $i <= len(self.cells) && n + $i <= len(self.cells) && pos == p_lo(pg(self)) + n + $i && !halt
@@ -443,6 +469,8 @@ package db
 //@   ensures [value] searchErr == nil ==> result == srch(key, l.cells[n])
 
 //@ func (*db.indexInterior).IterMin
+//@   ghost-entry rb = r - 1
+//@   ghost-exit rb = old(rb)
 //@   implements iface db.indexBtree.IterMin
 //@   uses index_tree index_sorted
 //@   loop 1 invariant 0 <= $i && $i <= len(self.cells) && n + $i <= len(self.cells) && !halt
@@ -462,6 +490,8 @@ package db
 // The keyed scans of the low-level API.
 
 //@ func (*db.Index).ScanMin
+//@   ghost-entry rb = 31
+//@   ghost-exit rb = old(rb)
 //@   props C03 C13 C12 C17
 //@   uses index_tree index_sorted
 //@   modifies * -M:S_db_KeyCol -M:S_sqlittle_columnIndex
@@ -490,6 +520,8 @@ package db
 //@   free-requires cb != nil && !eqmode && !rngmode && ixmode
 
 //@ func (*db.Index).ScanEq
+//@   ghost-entry rb = 31
+//@   ghost-exit rb = old(rb)
 //@   props C03 C13 C12 C17
 //@   uses index_tree index_sorted
 //@   modifies * -M:S_db_KeyCol -M:S_sqlittle_columnIndex
@@ -521,6 +553,8 @@ package db
 //@   ghost-exit halt = halt || done
 
 //@ func (*db.Index).ScanRange
+//@   ghost-entry rb = 31
+//@   ghost-exit rb = old(rb)
 //@   props C03 C13 C12 C17
 //@   uses index_tree index_sorted
 //@   modifies * -M:S_db_KeyCol -M:S_sqlittle_columnIndex
